@@ -13,7 +13,8 @@ check, per-capability checks) the failure of the model is characterised and rela
 * `chkTerminals_error_culprit`, `chkTerminals_ok_noDead`, `stage5_iff` — dead inputs and the emptiness check;
 * `usable_equiv` — the graph `chk_terminals` returns is the usable part `(dgOf fold d).usable`;
 * `stage6_ok`, `stage6_error` — the per-capability checks against `capDefects` / `culpritReal`;
-* `makeProcessor_isSome` — `_make_processor` cannot fail on an accepted graph.
+* `makeProcessor_isSome` — `_make_processor` cannot fail on an accepted graph;
+* `load_defects` — the master statement: accepted without defect, or rejected with a listed class and a real culprit.
 -/
 set_option linter.unusedSectionVars false
 set_option linter.unusedSimpArgs false
@@ -689,6 +690,238 @@ theorem makeProcessor_isSome {g : Graph N} (reg : List N) (hwf : g.WF) (hac : is
     rfl
 
 end MakeProc
+
+/-! # Putting the stages together -/
+
+section Master
+variable [LT N] [DecidableRel (α := N) (· < ·)] (fold : N → N)
+
+/-! ## `defects`, stage by stage -/
+
+theorem isEmpty_of_eq_nil {α : Type} {l : List α} (h : l = []) : l.isEmpty = true := by rw [h]; rfl
+
+theorem isEmpty_of_mem {α : Type} {l : List α} {x : α} (h : x ∈ l) : l.isEmpty = false := by
+  cases l with
+  | nil => cases h
+  | cons a t => rfl
+
+/-- `defects` as nested stages -/
+theorem defects_unfold (d : Desc N) : defects fold d =
+    if (stage1 fold d).isEmpty then
+      if (stage2 fold d).isEmpty then
+        if (flag (!(dgOf fold d).rgAll.acyclicB) DefectClass.cyclic).isEmpty then
+          if (flag (!(deadInputs (dgOf fold d)).isEmpty) DefectClass.deadInput).isEmpty then
+            if (flag (!hasLiveInput (dgOf fold d)) DefectClass.emptyProc).isEmpty then
+              (if (capDefects (dgOf fold d)).isEmpty then [] else capDefects (dgOf fold d))
+            else flag (!hasLiveInput (dgOf fold d)) DefectClass.emptyProc
+          else flag (!(deadInputs (dgOf fold d)).isEmpty) DefectClass.deadInput
+        else flag (!(dgOf fold d).rgAll.acyclicB) DefectClass.cyclic
+      else stage2 fold d
+    else stage1 fold d := rfl
+
+/-! ## The paths through `load` -/
+
+theorem createGraph_of {d : Desc N} {r : List (GNode N) × List N} {es : List (N × N)}
+    (h1 : addUnits fold d.units [] [] = .ok r) (h2 : addEdges fold (r.1.map (·.name)) d.edges [] = .ok es) :
+    createGraph fold d = .ok (⟨r.1, es⟩, r.2) := by
+  simp only [createGraph, h1, h2]
+
+theorem load_addUnits_error {d : Desc N} {e : LoadError N} (h : addUnits fold d.units [] [] = .error e) :
+    load fold d = .error e := by
+  simp only [load, createGraph, h]
+
+theorem load_addEdges_error {d : Desc N} {r : List (GNode N) × List N} {e : LoadError N}
+    (h1 : addUnits fold d.units [] [] = .ok r) (h2 : addEdges fold (r.1.map (·.name)) d.edges [] = .error e) :
+    load fold d = .error e := by
+  simp only [load, createGraph, h1, h2]
+
+theorem load_prepare_error {d : Desc N} {g : Graph N} {reg : List N} {e : LoadError N}
+    (hcg : createGraph fold d = .ok (g, reg)) (hp : prepare g = .error e) : load fold d = .error e := by
+  simp only [load, hcg, hp]
+
+theorem load_prepare_ok {d : Desc N} {g g2 : Graph N} {reg : List N} {p : Proc N}
+    (hcg : createGraph fold d = .ok (g, reg)) (hp : prepare g = .ok g2) (hmk : makeProcessor fold reg g2 = some p) :
+    load fold d = .ok p := by
+  simp only [load, hcg, hp, hmk]
+
+theorem prepare_cyclic {g : Graph N} (h : isAcyclic g = false) : prepare g = .error .cyclic := by
+  simp [prepare, h]
+
+theorem prepare_terminals_error {g : Graph N} {e : LoadError N} (hac : isAcyclic g = true)
+    (h : chkTerminals g.inPorts g.outPorts ((rmEmpty (cleanStruct g)).nodes.length + 1)
+      (rmEmpty (cleanStruct g)) = .error e) : prepare g = .error e := by
+  simp [prepare, hac, h]
+
+theorem prepare_empty {g g2 : Graph N} (hac : isAcyclic g = true)
+    (h : chkTerminals g.inPorts g.outPorts ((rmEmpty (cleanStruct g)).nodes.length + 1)
+      (rmEmpty (cleanStruct g)) = .ok g2)
+    (he : g.inPorts.any (fun p => decide (p ∈ g2.names)) = false) : prepare g = .error .emptyProc := by
+  simp only [prepare, hac, h, he]
+  simp
+
+theorem prepare_caps_error {g g2 : Graph N} {e : LoadError N} (hac : isAcyclic g = true)
+    (h : chkTerminals g.inPorts g.outPorts ((rmEmpty (cleanStruct g)).nodes.length + 1)
+      (rmEmpty (cleanStruct g)) = .ok g2)
+    (he : g.inPorts.any (fun p => decide (p ∈ g2.names)) = true) (hc : chkCaps g2 = .error e) :
+    prepare g = .error e := by
+  simp only [prepare, hac, h, he, hc]
+  simp
+
+theorem prepare_caps_ok {g g2 : Graph N} (hac : isAcyclic g = true)
+    (h : chkTerminals g.inPorts g.outPorts ((rmEmpty (cleanStruct g)).nodes.length + 1)
+      (rmEmpty (cleanStruct g)) = .ok g2)
+    (he : g.inPorts.any (fun p => decide (p ∈ g2.names)) = true) (hc : chkCaps g2 = .ok ()) :
+    prepare g = .ok g2 := by
+  simp only [prepare, hac, h, he, hc]
+  simp
+
+/-! ## The master statement -/
+
+/-- either the description is accepted and has no documented defect, or it is rejected with the class of a defect
+present at the first defective stage and with a real culprit -/
+theorem load_defects (d : Desc N) :
+    (∃ p, load fold d = .ok p ∧ defects fold d = []) ∨
+    (∃ e, load fold d = .error e ∧ e.cls ∈ defects fold d ∧ culpritReal fold d e = true) := by
+  -- stage 1
+  cases h1 : addUnits fold d.units [] [] with
+  | error e =>
+    right
+    obtain ⟨hcls, hcul⟩ := stage1_of_error fold h1
+    refine ⟨e, load_addUnits_error fold h1, ?_, hcul⟩
+    rw [defects_unfold, isEmpty_of_mem hcls]
+    exact hcls
+  | ok r =>
+    have hs1 := stage1_of_ok fold h1
+    have hnames : r.1.map (·.name) = d.units.map (·.name) := addUnits_ok_names fold _ _ _ r h1
+    -- stage 2
+    cases h2 : addEdges fold (r.1.map (·.name)) d.edges [] with
+    | error e =>
+      right
+      have h2' := h2
+      rw [hnames] at h2'
+      obtain ⟨hcls, hcul⟩ := stage2_of_error fold h2'
+      refine ⟨e, load_addEdges_error fold h1 h2, ?_, hcul⟩
+      rw [defects_unfold, isEmpty_of_eq_nil hs1, isEmpty_of_mem hcls]
+      exact hcls
+    | ok es =>
+      have hs2 : stage2 fold d = [] := by
+        have h2' := h2
+        rw [hnames] at h2'
+        exact stage2_of_ok fold h2'
+      have hcg := createGraph_of fold h1 h2
+      generalize hg : (⟨r.1, es⟩ : Graph N) = g at hcg
+      generalize hreg : r.2 = reg at hcg
+      have hwf : g.WF := createGraph_WF fold hcg
+      have hm : DGMatch (dgOf fold d) g := createGraph_match fold hcg
+      have hc : (dgOf fold d).ConnIn := dgOf_connIn fold d
+      -- stage 3
+      cases hac : isAcyclic g with
+      | false =>
+        right
+        have hB : (dgOf fold d).rgAll.acyclicB = false := by
+          cases hb : (dgOf fold d).rgAll.acyclicB with
+          | false => rfl
+          | true => rw [(stage3_iff hm hwf hc).2 hb] at hac; cases hac
+        refine ⟨.cyclic, load_prepare_error fold hcg (prepare_cyclic hac), ?_, ?_⟩
+        · rw [defects_unfold, isEmpty_of_eq_nil hs1, isEmpty_of_eq_nil hs2, hB]
+          simp [flag, LoadError.cls]
+        · simp [culpritReal, hB]
+      | true =>
+        have hB : (dgOf fold d).rgAll.acyclicB = true := (stage3_iff hm hwf hc).1 hac
+        obtain ⟨_, _, hn, _, ha⟩ := dg_facts fold hcg hac
+        have hs := rmEmpty_cleanStruct_spec hwf hac
+        -- stage 4
+        cases hterm : chkTerminals g.inPorts g.outPorts ((rmEmpty (cleanStruct g)).nodes.length + 1)
+            (rmEmpty (cleanStruct g)) with
+        | error e =>
+          right
+          obtain ⟨p, he, hpi, ⟨c, hfc⟩, hnl⟩ := chkTerminals_error_culprit hwf hac hterm
+          subst he
+          have hdead : p ∈ deadInputs (dgOf fold d) := by
+            rw [mem_deadInputs_iff hn hc ha]
+            exact ⟨(hm.origIn hwf p).2 hpi, ⟨c, (hm.feeds hwf c p).2 hfc⟩, fun hl => hnl ((hm.live hwf p).1 hl)⟩
+          refine ⟨.deadInput p, load_prepare_error fold hcg (prepare_terminals_error hac hterm), ?_, ?_⟩
+          · rw [defects_unfold, isEmpty_of_eq_nil hs1, isEmpty_of_eq_nil hs2, hB, isEmpty_of_mem hdead]
+            simp [flag, LoadError.cls]
+          · simp [culpritReal, hdead]
+        | ok g2 =>
+          have hl := chkTerminals_live hwf hac hterm
+          have hnodead : deadInputs (dgOf fold d) = [] := by
+            rw [List.eq_nil_iff_forall_not_mem]
+            intro p hp
+            rw [mem_deadInputs_iff hn hc ha] at hp
+            obtain ⟨hin, ⟨c, hfc⟩, hnl⟩ := hp
+            have hpi : p ∈ g.inPorts := (hm.origIn hwf p).1 hin
+            have hp1 : p ∈ (rmEmpty (cleanStruct g)).names := (hs.1 p).2 ⟨c, (hm.feeds hwf c p).1 hfc⟩
+            have hp2 := chkTerminals_ok_inputs_kept hterm p hpi hp1
+            exact hnl ((hm.live hwf p).2 ((hl.1 p).1 hp2))
+          have hs4 : (flag (!(deadInputs (dgOf fold d)).isEmpty) DefectClass.deadInput).isEmpty = true := by
+            rw [hnodead]; rfl
+          -- stage 5
+          have hany : g.inPorts.any (fun p => decide (p ∈ g2.names)) = hasLiveInput (dgOf fold d) := by
+            rw [Bool.eq_iff_iff, hasLiveInput_iff hn hc ha, List.any_eq_true]
+            constructor
+            · rintro ⟨p, hpi, hp2⟩
+              exact ⟨p, (hm.origIn hwf p).2 hpi, (hm.live hwf p).2 ((hl.1 p).1 (by simpa using hp2))⟩
+            · rintro ⟨p, hin, hlive⟩
+              exact ⟨p, (hm.origIn hwf p).1 hin, by simpa using (hl.1 p).2 ((hm.live hwf p).1 hlive)⟩
+          cases he : g.inPorts.any (fun p => decide (p ∈ g2.names)) with
+          | false =>
+            right
+            have hli : hasLiveInput (dgOf fold d) = false := by rw [← hany, he]
+            refine ⟨.emptyProc, load_prepare_error fold hcg (prepare_empty hac hterm he), ?_, ?_⟩
+            · rw [defects_unfold, isEmpty_of_eq_nil hs1, isEmpty_of_eq_nil hs2, hB, hs4, hli]
+              simp [flag, LoadError.cls]
+            · simp [culpritReal, hli]
+          | true =>
+            have hli : hasLiveInput (dgOf fold d) = true := by rw [← hany, he]
+            -- stage 6
+            obtain ⟨hwf2, hac2, hind, hclosed⟩ := terminals_final hwf hac hterm
+            have hE := usable_equiv fold hcg hac hterm
+            have hsup : ∀ u c, (dgOf fold d).usable.sup u c = decide (c ∈ capsIn (dgOf fold d).keptTable u) :=
+              fun u c => rfl
+            have hflags := stage6_flags hE hwf2 hac2 hsup
+            have hdef : defects fold d = capDefects (dgOf fold d) := by
+              rw [defects_unfold, isEmpty_of_eq_nil hs1, isEmpty_of_eq_nil hs2, hB, hs4, hli]
+              simp only [Bool.not_true, flag, Bool.false_eq_true, if_false, if_true, List.isEmpty_nil]
+              split
+              next hemp => rw [List.isEmpty_iff] at hemp; rw [hemp]
+              · rfl
+            have hcapdef : capDefects (dgOf fold d) =
+                flag (hasPathLock (dgOf fold d).usable (capsIn (dgOf fold d).keptTable)) DefectClass.pathLock ++
+                flag (hasBlockedCap (dgOf fold d).usable (capsIn (dgOf fold d).keptTable)) DefectClass.blockedCap := rfl
+            cases hcaps : chkCaps g2 with
+            | error e =>
+              right
+              refine ⟨e, load_prepare_error fold hcg (prepare_caps_error hac hterm he hcaps), ?_, ?_⟩
+              · rw [hdef, hcapdef, List.mem_append, mem_flag, mem_flag]
+                rcases chkCaps_error_port hwf2 hac2 (fedFromInputs_terminals hwf hac hterm) hcaps with
+                  ⟨hcls, hex⟩ | ⟨hcls, hex⟩
+                · exact Or.inl ⟨hflags.1.2 hex, hcls⟩
+                · exact Or.inr ⟨hflags.2.2 hex, hcls⟩
+              · rcases stage6_culprit hE hwf2 hac2 hcaps with ⟨u, t, c, rfl, hcul⟩ | ⟨c, p, rfl, hcul⟩
+                · exact hcul
+                · exact hcul
+            | ok x =>
+              left
+              have hok := chkCaps_ok hwf2 hac2 hcaps
+              have hprep := prepare_caps_ok hac hterm he hcaps
+              obtain ⟨p, hp⟩ := Option.isSome_iff_exists.1 (makeProcessor_isSome fold reg hwf2 hac2)
+              refine ⟨p, load_prepare_ok fold hcg hprep hp, ?_⟩
+              rw [hdef, hcapdef, List.append_eq_nil_iff, flag_eq_nil, flag_eq_nil]
+              constructor
+              · cases hb : hasPathLock (dgOf fold d).usable (capsIn (dgOf fold d).keptTable) with
+                | false => rfl
+                | true =>
+                  obtain ⟨p', hp', c, hc', hno⟩ := hflags.1.1 hb
+                  exact absurd (hok p' hp' c hc').1 hno
+              · cases hb : hasBlockedCap (dgOf fold d).usable (capsIn (dgOf fold d).keptTable) with
+                | false => rfl
+                | true =>
+                  obtain ⟨p', hp', c, hc', hno⟩ := hflags.2.1 hb
+                  exact absurd (hok p' hp' c hc').2 hno
+
+end Master
 
 end LoaderDefects
 end Loader
